@@ -735,7 +735,9 @@ def restored_rank(ctx, world, modes=("vjp",)):
 
     tab = facts.load("rank_changing_results")
     prom, flat = set(tab["promotes_0d"]), set(tab["flattens_to_1d"])
-    ctx.describe("A3.restore", "the VJP of a NumPy function whose result does not keep the operand's rank (cumsum family: a 0-d operand becomes a length-1 vector for every axis; cumsum / repeat / sort / partition: 1-D result when axis=None) returns, on every such path, a value reshaped to the operand's own shape (reshape(., shape(x)) / .reshape(x.shape) / vspace(x).shape)")
+    flat_args = {k_: set(v_) for k_, v_ in tab.get("flattens_arguments", {}).items()}
+    prom2d, diagm = set(tab.get("promotes_1d_to_2d", [])), set(tab.get("diagonal_of_matrix", []))
+    ctx.describe("A3.restore", "the VJP of a NumPy function whose result does not keep the operand's rank (cumsum family: a 0-d operand becomes a length-1 vector for every axis; cumsum / repeat / sort / partition: 1-D result when axis=None; outer: both arguments flattened; tril / triu: a 1-D operand broadcast to a square matrix; diag: the diagonal of a matrix of any aspect ratio) returns, on every such path, a value brought to the operand's own shape (reshape(., shape(x)) / .reshape(x.shape) / vspace(x).shape, unbroadcast(., metadata(x)), a crop .[:rows, :cols] with shape(x)'s entries; also under match_complex)")
 
     def shape_owner(t):
         while t.op == "seq":
@@ -759,12 +761,52 @@ def restored_rank(ctx, world, modes=("vjp",)):
                 return t.obj.args[0]
         return None
 
-    def restoring(leaf, k):
-        """is the leaf reshape(<anything>, <shape of argument k>)?"""
+    def shape_entry_of(t, k):
+        """is t an entry (or a slice bound built from an entry) of the shape of argument k?"""
+        while t is not None and t.op == "seq":
+            t = t.value
+        if t is None:
+            return False
+        if t.op == "sub" and t.idx.op == "const" and isinstance(t.idx.value, int):
+            o = shape_owner(t.obj)
+            return o is not None and o.op == "arg" and o.get("index") == k
+        return False
+
+    def restoring(leaf, k, depth=0):
+        """is the leaf brought to the shape of argument k: reshape(., shape(arg k)), unbroadcast(., metadata(arg k)),
+        a crop `.[:rows, :cols]` with bounds taken from shape(arg k) - possibly under match_complex?"""
         while leaf.op == "seq":
             leaf = leaf.value
+        if depth > 4:
+            return False
+        if leaf.op == "if":
+            return restoring(leaf.then, k, depth + 1) and restoring(leaf.other, k, depth + 1)
+        def crop_to_entry(i_):
+            """`:n` / slice(None, n) / slice(n) with n an entry of shape(arg k)"""
+            if i_.op == "slice":
+                return i_.hi is not None and shape_entry_of(i_.hi, k)
+            if i_.op == "call" and i_.fn.op == "ref" and i_.fn.ref.qual == "builtins.slice" and not i_.kw and 1 <= len(i_.args) <= 2:
+                return shape_entry_of(i_.args[-1], k)
+            return False
+
+        if leaf.op == "sub" and leaf.idx.op == "tuple" and leaf.idx.elts and all(crop_to_entry(i_) for i_ in leaf.idx.elts):
+            return True
         if leaf.op != "call":
             return False
+        r0, pre0 = resolve_callee(world.ev, leaf)
+        if r0 is not None and r0.kind in ("repo", "classattr"):
+            a0 = list(pre0) + list(leaf.args)
+            if r0.qual.endswith(".match_complex") and len(a0) >= 2:
+                return restoring(a0[1], k, depth + 1)
+            if r0.qual.endswith(".unbroadcast") and len(a0) >= 2:
+                m_ = a0[1]
+                while m_.op == "seq":
+                    m_ = m_.value
+                if m_.op == "call" and m_.args:
+                    rm, _ = resolve_callee(world.ev, m_)
+                    if rm is not None and rm.qual.endswith(".metadata") and m_.args[0].op == "arg" and m_.args[0].get("index") == k:
+                        return True
+                return False
         target = None
         r, pre = resolve_callee(world.ev, leaf)
         if r is not None and is_numpy_callable(r) and base_name(r) == "reshape":
@@ -789,10 +831,10 @@ def restored_rank(ctx, world, modes=("vjp",)):
 
     n = 0
     for e in world.table.entries:
-        if e.spec != "maker" or e.mode not in modes or not world.in_numpy_scope(e) or not is_numpy_callable(e.prim) or e.argnum != 0:
+        if e.spec != "maker" or e.mode not in modes or not world.in_numpy_scope(e) or not is_numpy_callable(e.prim) or not isinstance(e.argnum, int):
             continue
         bn = base_name(e.prim)
-        if bn not in prom and bn not in flat:
+        if not ((e.argnum == 0 and (bn in prom or bn in flat or bn in prom2d or bn in diagm)) or e.argnum in flat_args.get(bn, ())):
             continue
         ir = world.ir(e)
         if ir is None or not ir.ok or ir.result is None:
@@ -835,9 +877,23 @@ def restored_rank(ctx, world, modes=("vjp",)):
         def axis_dependent(c):
             return any(is_axis_arg(x) for x in _walk(c))
 
-        res = expand(world.ev, ir.result, ("autograd.core.vspace",))
+        res = expand(world.ev, ir.result, ("autograd.core.vspace", "autograd.numpy.numpy_vjps.unbroadcast", "autograd.numpy.numpy_vjps.match_complex"))
         paths = []
-        if bn in prom:
+        if e.argnum in flat_args.get(bn, ()):
+            paths.append(("flattened argument", res, f"an argument of {bn} with ndim != 1 (a matrix, a 0-d value): {bn} works on the flattened argument, the cotangent computed for it is 1-D"))
+        elif bn in prom2d:
+            paths.append(("1-D operand", res, f"a 1-D operand: {bn} broadcasts it to a square matrix, the cotangent is 2-D"))
+        elif bn in diagm:
+            def decide_2d(a_):
+                # the valuation "the operand is a matrix": ndim(x) == 2
+                if a_.op == "cmp" and a_.opname in ("Eq", "NotEq"):
+                    for l_, r_ in ((a_.l, a_.r), (a_.r, a_.l)):
+                        nd_ = (l_.op == "attr" and l_.name == "ndim" and l_.obj.op == "arg" and l_.obj.get("index") == 0) or (l_.op == "call" and len(l_.args) == 1 and l_.args[0].op == "arg" and l_.args[0].get("index") == 0 and (lambda rr: rr is not None and is_numpy_callable(rr) and base_name(rr) == "ndim")(resolve_callee(world.ev, l_)[0]))
+                        if nd_ and r_.op == "const" and type(r_.value) is int:
+                            return (r_.value == 2) if a_.opname == "Eq" else (r_.value != 2)
+                return None
+            paths.append(("2-D operand", specialise(res, decide_2d), "a non-square matrix: np.diag(g, k) of the 1-D cotangent is square, the operand is not"))
+        elif bn in prom:
             paths.append(("every axis (0-d operand)", res, "a 0-d operand (NumPy scalar, 0-d array) with axis=0 or axis=-1: the result and the cotangent have shape (1,), the operand has shape ()"))
         elif bn in flat:
             paths.append(("axis=None", specialise(res, decide), "a 0-d (or, where accepted, n-d) operand with axis=None: the result is the flattened, 1-D array"))
